@@ -63,6 +63,13 @@ mut("tree-arena-twice", MAC, "let mut __arena: &mut ::indextree::Arena<_> = #are
 mut("tree-children-not-reversed", MAC, "        stack.extend(children.into_iter().map(Either::Left).rev());", "        stack.extend(children.into_iter().map(Either::Left));", ["C15"])
 mut("tree-marker-after-children", MAC, "        stack.push(Either::Right(NestingLevelMarker));\n        action_buffer.push(Action::Nest);\n        stack.extend(children.into_iter().map(Either::Left).rev());",
     "        action_buffer.push(Action::Nest);\n        stack.extend(children.into_iter().map(Either::Left).rev());\n        stack.push(Either::Right(NestingLevelMarker));", ["C15"])
+mut("tree-parent-no-assign", MAC, "                __node = __temp;\n", "", ["C15"], note="found by the automut campaign: the Parent template no longer moves the cursor up")
+mut("rf-tree-rename-cursor", MAC, "        let mut __node: ::indextree::NodeId = __root_node;", "        let mut __cur: ::indextree::NodeId = __root_node;", [], silent=True,
+    extra=[(MAC, "__node", "__cur"), (MAC, "__last", "__prev_added")], note="consistent rename of the generated cursor variables")
+mut("rf-tree-parent-direct", MAC, """                let __temp = ::indextree::Node::parent(__temp);
+                let __temp = ::core::option::Option::unwrap(__temp);
+                __node = __temp;""", """                let __up = ::core::option::Option::unwrap(::indextree::Node::parent(__temp));
+                __node = __up;""", [], silent=True, note="Parent template written with one nested expression")
 mut("serde-skip-last-free", ARN, "    last_free_slot: Option<usize>,\n}", "    #[cfg_attr(feature = \"deser\", serde(skip))]\n    last_free_slot: Option<usize>,\n}", ["C16"])
 mut("std-fast-path-count", ARN, "    pub fn count(&self) -> usize {\n        self.nodes.len()", "    pub fn count(&self) -> usize {\n        #[cfg(feature = \"std\")]\n        {\n            if self.nodes.is_empty() {\n                return 0;\n            }\n        }\n        self.nodes.len()", ["C17"])
 mut("par-iter-skip-first", ARN, "        self.nodes.par_iter()", "        self.nodes[1..].par_iter()", ["C17"])
@@ -234,7 +241,7 @@ def run_one(m, args):
             res["tests_pass"] = r.returncode == 0
         props = m["props"] if not args.props else [p for p in m["props"] if p in args.props]
         if m["silent"]:
-            props = args.props or ["C01", "C02", "C03", "C04", "C05", "C06", "C07", "C08", "C09", "C10", "C11", "C12", "C13", "C14", "C17", "C18"]
+            props = args.props or ["C01", "C02", "C03", "C04", "C05", "C06", "C07", "C08", "C09", "C10", "C11", "C12", "C13", "C14", "C15", "C16", "C17", "C18"]
         for p in props:
             if not os.path.exists(os.path.join(HERE, "props", p + ".py")):
                 res["props"][p] = "no-check"
